@@ -143,21 +143,44 @@ def main(argv=None):
         if os.path.exists(op):
             os.unlink(op)
         cmd = [sys.executable, "-m", "vt.run", "--worker", ident, tier, str(seed), str(k), str(nw), str(budget), op]
-        procs.append((k, op, subprocess.Popen(cmd, stdout=subprocess.PIPE, stderr=subprocess.PIPE, text=True)))
+        # output goes to files: a worker never blocks on a full pipe while the parent waits for another one
+        procs.append((k, op, subprocess.Popen(cmd, stdout=open(op + ".out", "w"), stderr=open(op + ".err", "w"))))
     merged = harness.Collector()
     merged.nontrivial_hashes = set()
     harness_errors = []
     killed = 0
     exhaustive = None
     hard = budget + 200  # a worker that neither finishes nor stops at its budget is killed (its part is reported lost)
+    finish, dead = {}, set()
+    while True:
+        now = time.time() - t0
+        for k, op, pr in procs:
+            if k not in finish and k not in dead and pr.poll() is not None:
+                finish[k] = now
+        running = [(k, pr) for k, op, pr in procs if k not in finish and k not in dead]
+        if not running:
+            break
+        straggling = False
+        if finish and len(finish) >= nw - 2:
+            # all but one or two workers are done: a worker that needs more than twice the median time (and more than a
+            # minute) beyond the last finisher is stuck - its part is reported lost instead of waiting for the hard limit
+            med = sorted(finish.values())[len(finish) // 2]
+            straggling = now - max(finish.values()) > max(60, 2 * med)
+        if now > hard or straggling:
+            for k, pr in running:
+                pr.kill()
+                pr.wait()
+                dead.add(k)
+                killed += 1
+            break
+        time.sleep(0.2)
     for k, op, pr in procs:
-        try:
-            so, se = pr.communicate(timeout=max(5, hard - (time.time() - t0)))
-        except subprocess.TimeoutExpired:
-            pr.kill()
-            so, se = pr.communicate()
-            killed += 1
+        if k in dead:
             continue
+        try:
+            se = open(op + ".err").read()
+        except OSError:
+            se = ""
         if pr.returncode != 0 or not os.path.exists(op):
             harness_errors.append(f"worker {k} rc={pr.returncode}: {se[-3000:]}")
             continue
